@@ -146,6 +146,8 @@ def build(desc):
         return U.CI(*[build(c) for c in desc[1]])
     if t == 'dc':
         return U.DC(build(desc[1]), build(desc[2]), _meta(desc[3]))
+    if t == 'dci':
+        return U.DCI(build(desc[1]), build(desc[2]))
     if t == 'bad':
         return U.Bad(desc[1])
     if t == 'fn':
@@ -244,7 +246,7 @@ META = st.sampled_from([None, 'm', 3, ['tup', 1, 2]])
 
 
 ALL_KINDS = ('tuple', 'list', 'dict', 'od', 'dd', 'deque', 'nt', 'ss', 'cg', 'cn', 'cs', 'cm', 'cu',
-             'ci', 'dc', 'partial', 'cq', 'cp')
+             'ci', 'dc', 'partial', 'cq', 'cp', 'dci')
 _WEIGHT = {'tuple': 3, 'list': 3, 'dict': 4, 'od': 3, 'dd': 3, 'deque': 2, 'nt': 2}
 _LEAF = leaf_descs()
 _META = META
@@ -323,9 +325,9 @@ def _node(draw, budget, depth, keys, kinds, max_depth, leaf=None):
     if kind in ('cn', 'dc'):
         a, b = [rec(x) for x in _split(draw, max(budget, 2), 2)]
         return [kind, a, b, draw(_META)]
-    if kind == 'cs':
+    if kind in ('cs', 'dci'):
         a, b = [rec(x) for x in _split(draw, max(budget, 2), 2)]
-        return ['cs', a, b]
+        return [kind, a, b]
     if kind == 'cm':
         ch = kids(3)
         names = draw(st.permutations(list('xyzw')))
@@ -467,7 +469,7 @@ def children_refs(desc):
         return [(kc, 1) for kc in desc[1]]
     if t == 'dd':
         return [(kc, 1) for kc in desc[2]]
-    if t in ('cn', 'dc', 'cs'):
+    if t in ('cn', 'dc', 'cs', 'dci'):
         return [(desc, 1), (desc, 2)]
     if t == 'partial':
         return [(desc[2], i) for i in range(len(desc[2]))] + [(kc, 1) for kc in desc[3]]
